@@ -30,6 +30,9 @@ static std::vector<Base> bases(bool thorough, bool small) {
       for (int cm = 0; cm < 5; cm++) for (int hm = 0; hm < 3; hm++, k++) v.push_back({cm, hm, Ts[(k + rep) % 3], sz[(k * 5 + rep * 3 + cm) % sz.size()]});
     if (small && !thorough) v.resize(10);
   }
+  // the tag is a hash over 64 + 20T + 16k bytes: its length mod 64 is 56 or 60 (two-block padding) only for T mod 4 in {2,3}
+  // and one residue class of the block count k - thread counts the command line never uses
+  if (!small) { v.push_back({1, 0, 3, 50}); v.push_back({2, 1, 6, 50}); v.push_back({3, 2, 7, 40}); v.push_back({4, 0, 2, 37}); }
   return v;
 }
 static Bytes plain_of(const Base &b) { return fo::content(0, b.n); }
@@ -332,6 +335,8 @@ static std::string run_key(const Case &c) {
   unsigned char k[16];
   alt_key((size_t)c.num("kidx"), k, key_of(b.kk));
   if (memcmp(k, key_of(b.kk), 16) == 0) return "";
+  // the ordinary sequence of use: the same file (same inode) is first verified with the right key, then someone tries another key
+  if (c.num("kidx") % 2 == 0) (void)fo::wc_verify(F, key_of(b.kk), b.T);
   fo::OpResult v = fo::wc_verify(F, k, b.T), d = fo::wc_decrypt(F, k, b.T);
   if (MODE == "c12") {
     if (v.ret != d.ret) return "verify-decrypt-disagree|wrong key: verify " + std::string(v.ret ? "ok" : "fail") + ", decrypt " + (d.ret ? "ok" : "fail");
